@@ -427,6 +427,9 @@ func (i *interpreter) RunPath(entry value, harness string, prefix []int32, wantS
 			res.Inconclusive = append(res.Inconclusive, fmt.Sprintf("engine panic: %v\n%s", r, debug.Stack()))
 			res.Ended = "inconclusive"
 		}
+		if res.Ended == "harness-end" {
+			res.Ended = ""
+		}
 		if res.Ended == "" || res.Ended == "panic" || res.Ended == "assert-false" {
 			func() {
 				defer func() {
